@@ -106,9 +106,13 @@ func (v validators) Proposer(_ types.Height, r types.Round) A {
 const (
 	appDet   = iota // Value() is a function of (height, number of calls at that height): identical in every incarnation
 	appFresh        // Value() additionally depends on the process incarnation (as the real proposer's: wall clock + mempool)
+	// appAmnesic (extra, thorough tier only): Value() deterministic, but Valid(v) holds only for values THIS process
+	// incarnation has received or built (the real proposer.Valid is proposalStore.Get(hash) != nil and the proposal
+	// store lives in memory only).
+	appAmnesic
 )
 
-var appNames = []string{"det", "fresh"}
+var appNames = []string{"det", "fresh", "amnesic-valid"}
 
 type app struct {
 	Variant int
@@ -118,6 +122,24 @@ type app struct {
 	N       int
 	// heights at which Value() was called (the proposer's own value was derived from the Application)
 	CallHeights []types.Height
+	Known       map[V]bool // appAmnesic only
+}
+
+func (a *app) learn(v V) {
+	if a.Variant == appAmnesic {
+		if a.Known == nil {
+			a.Known = map[V]bool{}
+		}
+		a.Known[v] = true
+	}
+}
+
+func (a *app) knownList() []V {
+	var out []V
+	for v := range a.Known {
+		out = append(out, v)
+	}
+	return out
 }
 
 func mkValue(n uint64) V { return felt.FromUint64[V](n) }
@@ -148,12 +170,19 @@ func (a *app) Value() V {
 	if a.Variant == appFresh {
 		n += uint64(a.Inc+1) * 10000
 	}
-	return mkValue(n)
+	v := mkValue(n)
+	a.learn(v)
+	return v
 }
 
 var invalidValue = mkValue(666)
 
-func (a *app) Valid(v V) bool { return v != invalidValue }
+func (a *app) Valid(v V) bool {
+	if a.Variant == appAmnesic && !a.Known[v] {
+		return false
+	}
+	return v != invalidValue
+}
 
 // peerValue is the value a peer proposes for (h, r).
 func peerValue(h types.Height, r types.Round) V { return mkValue(uint64(h)*100 + 50 + uint64(r)) }
@@ -785,6 +814,7 @@ func (p *proc) deliver(in input) {
 	}
 	switch {
 	case in.prop != nil:
+		p.app.learn(*in.prop.Value) // the proposal's content reaches the application before the consensus message does
 		select {
 		case p.chP <- in.prop:
 		case <-p.done:
